@@ -87,7 +87,6 @@ var profileFields = []field{
 }
 
 var addressFields = []string{"formatted", "street_address", "locality", "region", "postal_code", "country"}
-var addressGo = []string{"Formatted", "StreetAddress", "Locality", "Region", "PostalCode", "Country"}
 
 func cat(parts ...[]field) []field {
 	var out []field
